@@ -134,6 +134,23 @@ fn check(c: &Case, obs: &mut Obs) -> Result<(), Fail> {
                 }
             }
 
+            // --- the same key stored and loaded again (the way a persisted key comes back) is the same key
+            if close[t as usize] || t == total - 1 {
+                match k.h_reloaded(&c.msg) {
+                    Ok((p2, pk2, sig2)) => {
+                        pv_ensure!(p2 == t, format!("reloaded-key-period-wrong:{kind}"),
+                            "depth {depth}: the key at period {t} reports period {p2} after as_bytes/from_bytes");
+                        pv_ensure!(pk2 == pk0, format!("reloaded-key-public-key-changed:{kind}"),
+                            "depth {depth}: the key at period {t} has another public key after as_bytes/from_bytes");
+                        pv_ensure!(sig2 == k.h_sign(&c.msg).h_bytes(), format!("reloaded-key-signs-differently:{kind}"),
+                            "depth {depth}: the key at period {t} signs differently after as_bytes/from_bytes");
+                        classes.push(format!("{kind}:reloaded"));
+                    }
+                    Err(e) => pv_fail!(format!("reloaded-key-refused:{kind}"),
+                        "depth {depth}: as_bytes of the key at period {t} (< 2^depth) is refused by from_bytes: {e}"),
+                }
+            }
+
             // --- evolution
             let r = k.h_update();
             if t == total - 1 {
